@@ -5233,7 +5233,30 @@ class Arc(Curve):
                 self.pry *= other
             if other.determinant < 0:
                 self.sweep = -self.sweep
+            self._orthogonalize_radii()
         return self
+
+    def _orthogonalize_radii(self):
+        """
+        After a non-conformal affine map (shear, non-uniform scale of a rotated ellipse) the images of prx and pry
+        are conjugate semi-diameters of the new ellipse but no longer perpendicular. Replace them by the principal
+        axes of the same ellipse, so that rx, ry and the rotation derived from prx and pry describe the true image.
+        """
+        if self.center is None or self.prx is None or self.pry is None:
+            return
+        cx, cy = self.center.x, self.center.y
+        ux, uy = self.prx.x - cx, self.prx.y - cy
+        vx, vy = self.pry.x - cx, self.pry.y - cy
+        dot = ux * vx + uy * vy
+        uu = ux * ux + uy * uy
+        vv = vx * vx + vy * vy
+        if abs(dot) <= 1e-12 * max(uu, vv):
+            return  # still perpendicular.
+        phi = 0.5 * atan2(2.0 * dot, uu - vv)
+        c = cos(phi)
+        s = sin(phi)
+        self.prx = Point(cx + ux * c + vx * s, cy + uy * c + vy * s)
+        self.pry = Point(cx - ux * s + vx * c, cy - uy * s + vy * c)
 
     def __len__(self):
         return 5
